@@ -4,7 +4,7 @@ use std::{
     path::Path,
 };
 
-use flate2::read::GzDecoder;
+use flate2::read::MultiGzDecoder;
 
 /// The output is wrapped in a Result to allow matching on errors
 /// Returns an Iterator to the Reader of the lines of the file.
@@ -17,7 +17,8 @@ where
     let file = File::open(filename)?;
 
     if is_gzip {
-        count_lines(BufReader::new(GzDecoder::new(file)))
+        // a gzip file may hold several members (RFC 1952); all of them are the content
+        count_lines(BufReader::new(MultiGzDecoder::new(file)))
     } else {
         count_lines(BufReader::new(file))
     }
